@@ -61,7 +61,13 @@ impl img::DiskImage for PO {
     fn read_block(&mut self,addr: Block) -> Result<Vec<u8>,DYNERR> {
         trace!("read {}",addr);
         match addr {
-            Block::PO(block) => Ok(self.data[block*BLOCK_SIZE..(block+1)*BLOCK_SIZE].to_vec()),
+            Block::PO(block) => {
+                if block >= self.data.len()/BLOCK_SIZE {
+                    error!("block {} is outside the image",block);
+                    return Err(Box::new(img::Error::SectorAccess));
+                }
+                Ok(self.data[block*BLOCK_SIZE..(block+1)*BLOCK_SIZE].to_vec())
+            },
             _ => Err(Box::new(img::Error::ImageTypeMismatch)),
         }
     }
@@ -69,6 +75,10 @@ impl img::DiskImage for PO {
         trace!("write {}",addr);
         match addr {
             Block::PO(block) => {
+                if block >= self.data.len()/BLOCK_SIZE {
+                    error!("block {} is outside the image",block);
+                    return Err(Box::new(img::Error::SectorAccess));
+                }
                 let padded = super::quantize_block(dat, BLOCK_SIZE);
                 self.data[block*BLOCK_SIZE..(block+1)*BLOCK_SIZE].copy_from_slice(&padded);
                 Ok(())
